@@ -85,6 +85,24 @@ def _value_names(expr: ast.AST, bound: Dict[str, ast.AST]) -> List[Tuple[str, as
     return out
 
 
+def _total_key(call: ast.Call) -> bool:
+    """sort / sorted without key, or with a key that is the element itself (or a tuple containing it)"""
+    key = None
+    for k in call.keywords:
+        if k.arg == "key":
+            key = k.value
+    if key is None:
+        return True
+    if isinstance(key, ast.Lambda) and len(key.args.args) == 1:
+        a = key.args.args[0].arg
+        body = key.body
+        elts = body.elts if isinstance(body, ast.Tuple) else [body]
+        return any(isinstance(e, ast.Name) and e.id == a for e in elts) or \
+            any(isinstance(e, ast.Call) and isinstance(e.func, ast.Name) and e.func.id in ("tuple", "repr", "str") and e.args
+                and isinstance(e.args[0], ast.Name) and e.args[0].id == a for e in elts)
+    return False
+
+
 def analyse(fi: FuncInfo, id_params: Set[str], id_collections: Set[str], graph_names: Set[str] = frozenset({"G", "g", "self.G"}),
             extra_ok: Set[str] = frozenset(), safe_callees: Set[str] = frozenset()):
     """returns (leaks, unordered, facts)
@@ -244,12 +262,18 @@ def analyse(fi: FuncInfo, id_params: Set[str], id_collections: Set[str], graph_n
                 if isinstance(par, ast.Attribute):  # nm.append / nm.sort
                     continue
                 if isinstance(par, ast.Call) and isinstance(par.func, ast.Name) and par.func.id in ORDER_FREE:
+                    if par.func.id == "sorted" and not _total_key(par):
+                        unordered.append((par, f"`sorted({nm}, key=...)` orders on a part of each element only: ties keep neighbour-iteration order"))
                     continue
                 if isinstance(par, ast.Subscript) and par.value is u:
                     continue
                 bad.append(u)
             sorts = [c for c in walk_local(fn) if isinstance(c, ast.Call) and isinstance(c.func, ast.Attribute) and c.func.attr == "sort"
                      and isinstance(c.func.value, ast.Name) and c.func.value.id == nm]
+            partial = [c for c in sorts if not _total_key(c)]
+            for c in partial:
+                unordered.append((c, f"`{nm}.sort(key=...)` orders on a part of each element only: ties keep neighbour-iteration order, so the label is not canonical"))
+            sorts = [c for c in sorts if _total_key(c)]
             # `nm = tuple(sorted(nm))`: a later re-binding of the same name to an order-free form
             rebinds = []
             for d in defs.get(nm, []):
